@@ -70,14 +70,21 @@ impl<'a> Iterator for List<'a> {
             self.corrupt = true;
             return None;
         };
-        let (etag, mut rem) = self.remaining.split_at(end + 1);
-        if let [b',', r @ ..] = rem {
-            rem = r;
-            while let [b' ' | b'\t', tail @ ..] = rem {
-                rem = tail;
-            }
+        let (etag, rem) = self.remaining.split_at(end + 1);
+        // `element *( OWS "," OWS element )`: optional whitespace on both sides of the comma.
+        let mut next = rem;
+        while let [b' ' | b'\t', tail @ ..] = next {
+            next = tail;
         }
-        self.remaining = rem;
+        if let [b',', r @ ..] = next {
+            next = r;
+            while let [b' ' | b'\t', tail @ ..] = next {
+                next = tail;
+            }
+        } else if !next.is_empty() {
+            next = rem; // not a separator; the next call reports it.
+        }
+        self.remaining = next;
         Some(etag)
     }
 }
